@@ -16,7 +16,8 @@ THEOREMS = ["edge_shared_by_two", "split_inv", "swap_inv", "collapse_inv", "rena
             "split_refines", "swap_refines", "concrete_split_inv", "concrete_swap_inv",
             "split_checks_sound", "swap_checks_sound",
             "merge_refines", "merge_refines_manifold", "concrete_merge_inv", "merge_checks_sound", "merge_checked",
-            "merge_keeps_index", "split_keeps_index", "swap_keeps_index", "index_sound_of_complete", "merge_nonvacuous"]
+            "merge_keeps_index", "split_keeps_index", "swap_keeps_index", "index_sound_of_complete", "merge_nonvacuous",
+            "merge_guard_iff", "canBeMerged_sound", "canBeMerged_defined", "sortspec_check_sound", "merge_executed_refines"]
 GEN = ["RemeshConsts"]
 
 
